@@ -90,6 +90,7 @@ type RunOpts struct {
 	Cwd     string `json:"cwd"`  // "" = the package directory (what `go test` does)
 	Run     string `json:"run"`  // -test.run
 	Count   int    `json:"count"`
+	Cpu     string `json:"cpu"` // -test.cpu
 	CI      bool   `json:"ci"`
 	Upd     string `json:"update_snaps"`
 	UpdSet  bool   `json:"update_snaps_set"`
@@ -126,6 +127,9 @@ func runProgram(o RunOpts, s Scenario) (Result, string, error) {
 	args := []string{"-test.count", fmt.Sprint(max(o.Count, 1))}
 	if o.Run != "" {
 		args = append(args, "-test.run", o.Run)
+	}
+	if o.Cpu != "" {
+		args = append(args, "-test.cpu", o.Cpu)
 	}
 	cmd := exec.Command(binPath(o.Pkg, o.Trim), args...)
 	cmd.Dir = o.Cwd
